@@ -204,6 +204,47 @@ def check(ctx):
     if unknown:
         ctx.note(f"ops without a transfer function (evaluated as unknown, never a pass): {sorted(unknown)}")
 
+    # ---------------- (g) interval terms of the refractory encoders: mean interval 1000/(f*dt) steps, minus the refractory
+    # period iff compensated, every drawn interval shifted by the refractory period (in steps)
+    R = "(step_time if refrac is None else refrac) / step_time"
+    base = f"(1 / inputs) * (1000.0 / step_time) - (({R}) if compensate else 0)"
+    for name in ("homogeneous_poisson_exp_interval", "homogeneous_poisson_exp_interval_online"):
+        f = funcs[name]
+        b = terms.Builder(None, None, {})
+        body = strip_doc(f.node.body)
+        # the scale applied to the exponential draw and the additive refractory offset
+        draws = [c for c in P.calls_in(f) if isinstance(c.func, ast.Attribute) and c.func.attr == "exponential_"]
+        ok_all = bool(draws)
+        for d in draws:
+            # parent expression: <draw> * scale + offset
+            parent = None
+            for n in ast.walk(f.node):
+                if isinstance(n, ast.BinOp) and isinstance(n.op, ast.Add) and isinstance(n.left, ast.BinOp) and isinstance(n.left.op, ast.Mult) and n.left.left is d:
+                    parent = n
+            if parent is None:
+                ok_all = False
+                continue
+            bb = terms.Builder(None, None, {})
+            terms.prime(bb, f.node, parent, take_if=lambda t: t == "compensate")
+            scale_c = bb.t(parent.left.right)
+            off = bb.t(parent.right)
+            bb2 = terms.Builder(None, None, {})
+            terms.prime(bb2, f.node, parent, take_if=None)
+            scale_n = bb2.t(parent.left.right)
+            want_c = specs.spec_term(f"(1 / inputs) * (1000.0 / step_time) - ({R})")
+            want_n = specs.spec_term("(1 / inputs) * (1000.0 / step_time)")
+            want_off = specs.spec_term(R)
+            idx_ok = True
+            if isinstance(parent.left.right, ast.Subscript):
+                scale_c = scale_n = None   # masked online re-draw: inputs[spikes] (checked by C19.e); compare the underlying name
+                nm = parent.left.right.value
+                scale_c, scale_n = bb.t(nm), bb2.t(nm)
+            ok = nf.equal(scale_c, want_c) and nf.equal(scale_n, want_n) and nf.equal(off, want_off)
+            ok_all = ok_all and ok
+        ctx.ob("C19.g", f"{name}: interval = Exp(1) * (1000/(f*dt) - [refrac/dt if compensate]) + refrac/dt", ok_all,
+               "" if ok_all else "the drawn inter-spike interval is not scaled / shifted as documented: the minimum gap or the mean rate is wrong", f.where)
+        cps = [n for n in walk_own(f.node) if isinstance(n, ast.If) and isinstance(n.test, ast.Name) and n.test.id == "compensate"]
+        ctx.ob("C19.g", f"{name}: the refractory compensation is applied iff `compensate`", len(cps) == 1 and not cps[0].orelse, "", f.where)
     # ---------------- (c) parameter flow
     n = G.g10_identical_arms(ctx, list(funcs.values()), rule="C19.c/G10")
     for name, f in funcs.items():
